@@ -147,7 +147,11 @@ var profileFns = map[string]func(s *shardSet, rng *rand.Rand, thorough bool) ([]
 		if thorough {
 			deeper = 3
 		}
-		n := Exhaustive(s, rng, depth, 4, deeper)
-		return []string{"int16", "int8", "int64", "float64", "uint8", "uint32"}, map[string]int{"paths": n, "depth": depth}
+		n := Exhaustive(s, rng, depth, 4, deeper, nil)
+		extra := map[string]int{"paths": n, "depth": depth}
+		if thorough { // every sequence of THREE operations from the two smallest worlds (views capped at 3)
+			extra["paths_depth3"] = Exhaustive(s, rng, 3, 3, 0, map[string]bool{"3ch": true, "full-and-empty": true})
+		}
+		return []string{"int16", "int8", "int64", "float64", "uint8", "uint32"}, extra
 	},
 }
